@@ -80,6 +80,8 @@ type Violation struct {
 	ReplayOut  string `json:"replay_out,omitempty"`
 	ReplayFile string `json:"replay_file,omitempty"`
 	Known      string `json:"known,omitempty"`
+	// set by the driver for harnesses explored with scheduling decisions: the counterexample needs an interleaving
+	SchedDependent bool `json:"sched_dependent,omitempty"`
 }
 
 type PathSample struct {
